@@ -369,43 +369,42 @@ def openFile (file : Bytes) (decodedAt : Nat → Option Bytes) : Except Err Open
       | .error e => .error e
       | .ok st => .ok { hdr := hdr, xref := st.xref, trailer := (st.trailer.getD []) }
 
-/-- longest prefix whose bytes satisfy `p`, and the rest -/
-def spanBy (p : Nat → Bool) : Bytes → Bytes × Bytes
-  | [] => ([], [])
-  | c :: cs => if p c then let (a, b) := spanBy p cs; (c :: a, b) else ([], c :: cs)
+/-- `scanner.readReferenceTail` (library HEAD 7ec872d) on the decoded object stream `data`, the
+    scanner standing at `memberEnd` behind the integer `a`; `endOff` is the offset of the next
+    member (`none`: there is none).  White space and comments, an integer (`ReadInteger`: sign, any
+    number of digits), white space and comments, `R`; the `R` must end at or before `endOff`; if
+    it ends before it (or there is no limit) the next byte must not be regular; `a` and the
+    generation in range.  A malformed-file error or the end of the data at any step means "not a
+    reference" (the model's byte source has no other read errors). -/
+def readReferenceTail (data : Bytes) (memberEnd : Nat) (endOff : Option Nat) (a : Int) : Option (Nat × Nat) :=
+  match skipWS (data.drop memberEnd) with
+  | (_, true) => none
+  | (r1, false) =>
+    match readInt r1 with
+    | .error _ => none
+    | .ok (b, r2) =>
+      match skipWS r2 with
+      | (_, true) => none
+      | (82 :: r4, false) =>
+        let pos := data.length - r4.length
+        let tooFar : Bool := match endOff with | some e => pos > e | none => false
+        let mustLook : Bool := match endOff with | some e => pos < e | none => true
+        let follows : Bool := match r4 with | [] => true | c :: _ => !isRegular c
+        if tooFar then none
+        else if mustLook && !follows then none
+        else if a < 0 || a ≥ Gen.his_xref_maxXRefSize || b < 0 || b > Gen.his_xref_maxGeneration then none
+        else some (a.toNat, b.toNat)
+      | _ => none
 
-/-- `referenceTail` (reader.go, library HEAD 444f7d4): do the bytes `buf` behind the integer `a`
-    complete an indirect reference `a g R`?  White space, one to six digits (a seventh digit makes
-    the white-space test behind the digits fail), white space, `R`, then the end of the window or
-    a non-regular byte; `a` and `g` in range. -/
-def referenceTail (a : Int) (buf : Bytes) : Option (Nat × Nat) :=
-  let (ws1, r1) := spanBy isSpace buf
-  if ws1.isEmpty then none else
-  let (ds, r2) := spanBy isDigit r1
-  let (ws2, r3) := spanBy isSpace r2
-  if ds.isEmpty || ds.length > 6 || ws2.isEmpty then none else
-  match r3 with
-  | 82 :: r4 =>
-    let follows : Bool := match r4 with
-      | [] => true
-      | c :: _ => !isRegular c
-    let b := digitsVal ds 0
-    if !follows then none
-    else if a < 0 || a ≥ Gen.his_xref_maxXRefSize || b > Gen.his_xref_maxGeneration then none
-    else some (a.toNat, b)
-  | _ => none
-
-/-- the look-ahead `getFromObjStm` applies to a member that was read as the integer `a`: the
-    window is 64 bytes, cut at the offset of the next member (the smallest index offset greater
-    than this member's), `memberEnd` is where the integer ended -/
+/-- the look-ahead `getFromObjStm` applies to a member that was read as the integer `a`:
+    `offsAbs` are the offsets of all members, `target` this member's, `memberEnd` where the
+    integer ended -/
 def memberValue (data : Bytes) (offsAbs : List Nat) (target memberEnd : Nat) (a : Int) : Obj :=
-  let later := offsAbs.filter (fun x => x > target)
-  let avail : Int :=
-    match later with
-    | [] => 64
-    | x :: xs => min 64 ((xs.foldl min x : Nat) - (memberEnd : Int))
-  if avail ≤ 0 then .int a else
-  match referenceTail a ((data.drop memberEnd).take avail.toNat) with
+  let endOff : Option Nat :=
+    match offsAbs.filter (fun x => x > target) with
+    | [] => none
+    | x :: xs => some (xs.foldl min x)
+  match readReferenceTail data memberEnd endOff a with
   | some (n, g) => .ref n g
   | none => .int a
 
